@@ -47,6 +47,23 @@ type StructB struct {
 	Tags map[string]string
 }
 
+// StructD carries values of different dynamic types in interface-typed positions.
+type StructD struct {
+	L []any
+	V float64
+}
+
+// Pick hands out values of different dynamic types through an interface-typed result.
+func (s *StructD) Pick(i int) any {
+	switch i % 3 {
+	case 0:
+		return s.V
+	case 1:
+		return "tag"
+	}
+	return i
+}
+
 func (s *StructB) Double() float64      { return s.V * 2 }
 func (s *StructB) Tag(k string) string  { return s.Tags[k] }
 func (s *StructB) Other(a *StructA) int { return a.F + 1 }
@@ -167,6 +184,13 @@ func Scenarios() []Scenario {
 				evalBody("s.Items", risor.WithGlobal("s", a())),
 				evalBody("t.Tag(\"k\")", risor.WithGlobal("t", b())),
 				evalBody("t.Other(t.MakeA())", risor.WithGlobal("t", b())), // one global per evaluation: the order in which several globals are converted follows Go map iteration
+			}
+		}},
+		{Name: "values of different dynamic types through any-typed positions", Make: func() []Body {
+			// one global per evaluation: several globals would be converted in Go map order
+			return []Body{
+				evalBody(`[d.L[0], d.L[1], d.Pick(0), d.Pick(1), d.Pick(2)]`, risor.WithGlobal("d", &StructD{L: []any{1, "s"}, V: 1.5})),
+				evalBody(`[d.L[0], d.L[1], d.Pick(1), d.Pick(2), d.Pick(3)]`, risor.WithGlobal("d", &StructD{L: []any{"t", 2.5}, V: 2.5})),
 			}
 		}},
 		{Name: "codec lookup vs codec lookup vs registration", Make: func() []Body {
